@@ -353,8 +353,8 @@ Definition disjoint (a b : list str) : bool := forallb (fun x => negb (in_str x 
 Definition declared (g : GraphP) : list str :=
   map vname (g_inputs g) ++ map tname (g_inits g) ++ node_out_names (g_nodes g).
 
-(* allow_dev: device configurations may appear on this graph's own nodes (model IR version >= 11);
-   nested graphs are serialized without a version and always keep them *)
+(* allow_dev: device configurations may appear on the nodes of this graph and of its nested graphs
+   (model IR version >= 11, or a graph serialized on its own, without a model version) *)
 Fixpoint wf_graph (allow_dev : bool) (visible : list str) (g : GraphP) : bool :=
   let ins := map vname (g_inputs g) in
   let inits := map tname (g_inits g) in
@@ -375,7 +375,7 @@ Fixpoint wf_graph (allow_dev : bool) (visible : list str) (g : GraphP) : bool :=
   && nodup_str qs && forallb (fun q => wf_dict (qa_params q) && nonempty (qa_params q)) (g_quant g)
   && forallb (fun q => in_str q decl) qs
   && wf_dict (g_meta g)
-  && forallb (wf_node allow_dev (wf_graph true) (visible ++ decl)) (g_nodes g).
+  && forallb (wf_node allow_dev (wf_graph allow_dev) (visible ++ decl)) (g_nodes g).
 
 Definition wf_function (allow_dev : bool) (allow_vinfo : bool) (f : FunctionP) : bool :=
   let nouts := node_out_names (f_nodes f) in
@@ -388,7 +388,7 @@ Definition wf_function (allow_dev : bool) (allow_vinfo : bool) (f : FunctionP) :
   && (allow_vinfo || negb (nonempty (f_vinfo f)))
   && nodup_str vis && forallb nonempty vis && forallb wf_vinfo (f_vinfo f)
   && wf_dict (f_opsets f) && wf_dict (f_meta f)
-  && forallb (wf_node allow_dev (wf_graph true) decl) (f_nodes f).
+  && forallb (wf_node allow_dev (wf_graph allow_dev) decl) (f_nodes f).
 
 Definition fident (f : FunctionP) : str * str * str :=
   (dflt [] (f_domain f), dflt [] (f_name f), dflt [] (f_overload f)).
